@@ -22,7 +22,14 @@ Inductive case :=
          (ks0_empty : bool) (table_pk : option (list (list Z))) (per_col : list mres) (nvalues : Z) (out : rk_out)
 | CBatchRK (explicit : option (list Z)) (has_entries binding : bool) (col_count : Z) (cols : list (list Z))
            (pkey : list Z) (ks0_empty : bool) (table_pk : option (list (list Z))) (per_col : list mres)
-           (nvalues : Z) (out : rk_out).
+           (nvalues : Z) (out : rk_out)
+(* one *Query handle through a sequence of Bind / RoutingKey / GetRoutingKey / Pick / Release+reuse: the
+   results of its GetRoutingKey calls, in order *)
+| CQuerySeq (col_count : Z) (cols : list (list Z)) (pkey : list Z) (ks0_empty : bool) (table_pk : option (list (list Z)))
+            (init : qstate) (ops : list qop) (outs : list rk_out)
+(* one *Batch handle: first entry set / replaced, entries appended, explicit key, GetRoutingKey *)
+| CBatchSeq (col_count : Z) (cols : list (list Z)) (pkey : list Z) (ks0_empty : bool) (table_pk : option (list (list Z)))
+            (ops : list bop) (outs : list rk_out).
 
 Definition rk_eqb (a b : rk_out) : bool :=
   match a, b with
@@ -60,6 +67,13 @@ Fixpoint all_some {A} (l : list (option A)) : option (list A) :=
   | None :: _ => None
   end.
 
+Fixpoint rks_eqb (a b : list rk_out) : bool :=
+  match a, b with
+  | [], [] => true
+  | x :: a', y :: b' => rk_eqb x y && rks_eqb a' b'
+  | _, _ => false
+  end.
+
 Definition check (c : case) : bool :=
   match c with
   | CMurmur key h1 tok => (murmur3_h1 key =? h1) && (murmur3_token key =? tok)
@@ -84,6 +98,8 @@ Definition check (c : case) : bool :=
       rk_eqb (get_routing_key ex bi cc cols pkey ks0 tpk per nv) out
   | CBatchRK ex he bi cc cols pkey ks0 tpk per nv out =>
       rk_eqb (batch_routing_key ex he bi cc cols pkey ks0 tpk per nv) out
+  | CQuerySeq cc cols pkey ks0 tpk init ops outs => rks_eqb (q_run cc cols pkey ks0 tpk init ops) outs
+  | CBatchSeq cc cols pkey ks0 tpk ops outs => rks_eqb (b_run cc cols pkey ks0 tpk (mkb None None) ops) outs
   end.
 
 Definition run (cs : list case) : list N := mismatches check cs.
